@@ -53,6 +53,8 @@ func main() {
 		os.Exit(runCheck(os.Args[2], "replay", os.Args[3]))
 	case "selftest":
 		os.Exit(runSelftest())
+	case "fidelity":
+		os.Exit(runFidelityCmd())
 	default:
 		usage()
 	}
